@@ -543,8 +543,8 @@ fn gen_async(rng: &mut Rng, flavour: &str, cap: usize, thorough: bool) -> Vec<Ve
           continue;
         }
         let h = (*rng.pick(&hs)).clone();
-        let excl = if send_side { f.s_mut } else { f.r_mut };
-        if excl && busy(&h, &live) {
+        // one task per handle: at most one live future on a handle (clones give concurrency)
+        if busy(&h, &live) {
           continue;
         }
         let fname = format!("f{}", next_f);
